@@ -322,7 +322,11 @@ def mag_case(draw):
               "vert_eps": 10.0 ** draw(gens.fl(-5.0, -1.0)),
               # roll/pitch gate band: norm(W00, W11) = 0.1 (1 - band_u) split by band_phi, with a cross term W10
               "tilt_band": draw(st.integers(0, 3)) == 0, "band_u": draw(st.sampled_from([0.0, 1e-6, 0.01, 0.05, 0.15, 0.3, -1e-6, -0.05])),
-              "band_phi": draw(gens.fl(0.05, 1.5)), "w10": draw(gens.fl(-0.1, 0.1))})
+              "band_phi": draw(gens.fl(0.05, 1.5)), "w10": draw(gens.fl(-0.1, 0.1)),
+              # tie: measured field EXACTLY anti-north in the navigation frame (y_n[1] == 0, y_n[0] < 0; heading residual +-pi),
+              # at the identity attitude or the half-turn-about-z MRP (0, 0, 1)  (seed C11-r6A)
+              "antinorth": draw(st.integers(0, 7)) == 0, "an_yaw180": draw(st.booleans()),
+              "an_a": 10.0 ** draw(gens.fl(-2.0, 0.5)), "an_c": draw(gens.fl(-1.0, 1.0))})
     return c
 
 
@@ -331,6 +335,9 @@ def mag_state(case):
     body z (gate 1), or a large roll/pitch variance (gate 2)."""
     x = x_of(case["x"])
     W = lower_only(W_of(case["W"]))
+    if case.get("antinorth"):
+        x = np.concatenate([[0.0, 0.0, 1.0 if case["an_yaw180"] else 0.0], x[3:]])
+        return x, W
     if case["vertical"]:
         # C_nb^T * Rz(decl) e1 = +-e3 up to vert_eps  ->  choose C_nb = Rz(decl) * Ry(-(pi/2 - eps)) * Rz(any)
         Rn = ref.Rz(case["decl"]) @ ref.Ry(-(PI / 2 - case["vert_eps"])) @ ref.Rz(case["err"][0] * 10)
@@ -352,6 +359,8 @@ def mag_state(case):
 
 def mag_meas(case):
     x, W = mag_state(case)
+    if case.get("antinorth"):
+        return np.array([case["an_a"] if case["an_yaw180"] else -case["an_a"], 0.0, case["an_c"] * case["an_a"]])
     C = ref.mrp_to_R(x[:3]) @ ref.rotvec_to_R(np.array(case["err"])) if case["near"] else R_of(case["true"])
     B_n = ref.Rz(case["decl"]) @ ref.Ry(-case["incl"]) @ np.array([1.0, 0, 0]) * case["mag_str"]
     y = C.T @ B_n
@@ -423,6 +432,8 @@ def mag_classify(case):
     y = mag_meas(case)
     out = call("correct_mag", x, W, y, case["decl"], case["std_mag"], case["beta"])
     code = float(out[5].reshape(-1)[0])
+    if case.get("antinorth"):
+        return ["meas:antinorth", "code:%g" % code]
     return ["meas:" + case["mclass"], "code:%g" % code] + (["tilt:band"] if case.get("tilt_band") and not case["tilt_big"] else [])
 
 
